@@ -59,6 +59,12 @@ SCRIPTED = [
     "do {\n  y0 = 1000\n  return fz(1)\n}\nfz(1)",
 ]
 ALPHABET = ALPHABET + SCRIPTED
+# (statement, statement) that must have equal results when both succeed in one session
+SAME_RESULT = [
+    ("do {\n  y0 = 50\n  return fy(1)\n}", "fy(1)"),
+    ("(y0 => fy(1))(50)", "fy(1)"),
+    ("do {\n  y0 = 1000\n  return fz(1)\n}", "fz(1)"),
+]
 TAIL = "[#n, inputs.n]"
 
 
@@ -132,7 +138,7 @@ def check_session_invariant(src, out, res, known):
                     seen_probe[k] = v if (v.startswith("OK:") or k not in seen_probe) else seen_probe[k]
     # a statement that binds nothing and succeeded once must give the same result whenever it is
     # evaluated again later in the session (every name it used is bound, hence immutable)
-    stmts = [x for x in re.split(r"\n(?=\S)", src) if not x.startswith("//")]
+    stmts = [x for x in re.split(r"\n(?=[^\s}])", src) if not x.startswith("//")]
     if len(stmts) == len(segs):
         first_ok = {}
         for i, (stx, seg) in enumerate(zip(stmts, segs)):
@@ -147,6 +153,21 @@ def check_session_invariant(src, out, res, known):
             if r_.startswith("OK:"):
                 first_ok.setdefault(stx, r_)
             checks += 1
+        # a do-block local / a parameter of ANOTHER function is not visible inside a called function:
+        # the call gives what it gives at top level
+        ok_of = {}
+        for stx, seg in zip(stmts, segs):
+            r_ = strip_names(seg.partition(";ENV:")[0])
+            if r_.startswith("OK:"):
+                ok_of.setdefault(stx, r_)
+        for wrapped, bare in SAME_RESULT:
+            if wrapped in ok_of and bare in ok_of:
+                checks += 1
+                if ok_of[wrapped] != ok_of[bare]:
+                    viol("a do-block local or a parameter of the calling function was visible inside the called "
+                         "function (the call gives a different result than at top level)",
+                         {"statement": wrapped, "result": ok_of[wrapped], "top_level_statement": bare,
+                          "top_level_result": ok_of[bare]})
     if segs:
         last = segs[-1].partition(";ENV:")[0]
         if src.endswith(TAIL) and last != "OK:L[N4014000000000000,N4014000000000000]":
